@@ -371,18 +371,38 @@ fn validate_outcome(rule: &Rule) -> String {
         }
         bad
     });
-    // Some(None) = Ok(true); Some(Some(n)) = Err naming n examples
+    // Some(None) = Ok(true); Some(Some((n, msg))) = Err naming n examples
     let own = guarded(|| match rule.validate() {
         Ok(_) => None,
         Err(e) => {
             let msg = format!("{}", e);
-            Some(msg.matches("true positive check").count() + msg.matches("true negative check").count())
+            Some((msg.matches("true positive check").count() + msg.matches("true negative check").count(), msg))
         }
     });
     match (indices, own) {
         (Some(bad), Some(named)) => {
             let ok = named.is_none();
-            if ok != bad.is_empty() || (!ok && named != Some(bad.len())) {
+            // the message must name EACH failing example (its Debug text, quoted), in the order of the lists
+            let mut names_each = true;
+            if let Some((_, msg)) = &named {
+                let mut from = 0usize;
+                for i in &bad {
+                    let t = if *i >= 1000 { rule.true_negatives.get(*i - 1000) } else { rule.true_positives.get(*i) };
+                    let quoted = match t {
+                        Some(t) => format!("'{:?}'", t),
+                        None => String::new(),
+                    };
+                    match msg[from..].find(&quoted) {
+                        Some(p) => from += p + quoted.len(),
+                        None => {
+                            names_each = false;
+                            break;
+                        }
+                    }
+                }
+            }
+            let named = named.map(|(n, _)| n);
+            if ok != bad.is_empty() || (!ok && named != Some(bad.len())) || !names_each {
                 "inconsistent".to_string()
             } else if ok {
                 "ok".to_string()
